@@ -3184,3 +3184,16 @@ C19_RUN_SUBSEQUENT = dict(
     params=_BUILDER_PARAMS + [("screen", "opt spath"), ("thetas", "tglob"), ("dist_chunks", "dglob")] + _TAIL_PARAMS
     + [("excludes", "opt list Z")], vars={"args": "list opt word"})
 ALL += [C19_RUN_INITIAL, C19_RUN_FIRST, C19_RUN_FIRST_PROSP, C19_RUN_SUBSEQUENT]
+
+# ---- C19, continued: dir_sort_key (the key both `sorted(..., key=dir_sort_key)` of examine use, and the index examine reads;
+# proofs: Proofs/C19SourceCmd.v).  Here a path is its NAME (list of components, each a string); the theorem ties the name
+# "…/iter_<i>" / "…/plate_<j>" to the index primitives iter_index / plate_index of C19_EXAMINE.
+C19_DIR_SORT_KEY = dict(
+    file="nextflow/scripts/batchie.py", out="SrcOrchCmd.v", imports="Model.Orchestrate", monad=_SRES,
+    func="dir_sort_key", name="src_dir_sort_key", pyparams=["x"], params=[("x", "fspath")], returns="Z", vars={},
+    prims=[("os.path.basename(__p)", "basename {p}", "str", {"p": "fspath"}),          # the last component
+           ("__s.split('_')", "split_on 95 {s}", "list str", {"s": "str"}),            # 95 = "_"
+           ("__l[1]", "!snth 1 {l}", "str", {"l": "list str"}),                        # IndexError without a second piece
+           ("int(__s)", "!int_of_str {s}", "Z", {"s": "str"})],                        # ValueError unless a decimal numeral
+)
+ALL += [C19_DIR_SORT_KEY]
